@@ -285,6 +285,15 @@ func (w *World) RandomTx(v *View, height uint64, inBlock []*wire.MsgTx) *wire.Ms
 			ins = append(ins, s[j])
 			s = append(s[:j], s[j+1:]...)
 		}
+		// jointly funded: a stranger's coin among the inputs, at any position (the wallet's input is
+		// then not input 0, and the relevant inputs are not a prefix of the input list)
+		if w.R.Chance(35) {
+			if f := w.spendable(v, false); len(f) > 0 {
+				x := f[w.R.Intn(len(f))]
+				at := w.R.Intn(len(ins) + 1)
+				ins = append(ins[:at], append([]*Out{x}, ins[at:]...)...)
+			}
+		}
 	case 2:
 		if len(inBlock) == 0 {
 			return nil
